@@ -135,10 +135,18 @@ impl Wake for FlagWaker {
   }
 }
 
+/// The application's half: the DataReader flavour and its waker. Send, so that it can
+/// live on another thread than the Reader (E-SCHED).
+pub struct ConsumerSide {
+  pub flavor: Flavor,
+  dr: Dr,
+  pub waker_flag: Arc<FlagWaker>,
+}
+
 pub struct ReaderBench {
   pub cfg: RbCfg,
   mr: MessageReceiver,
-  dr: Dr,
+  pub cons: ConsumerSide,
   reader_eid: EntityId,
   pub own_prefix: [u8; 12],
   acknack_rx: mio_channel::Receiver<(GuidPrefix, AckSubmessage)>,
@@ -146,7 +154,6 @@ pub struct ReaderBench {
   _pstatus_rx: StatusChannelReceiver<DomainParticipantStatusEvent>,
   _cmd_keepalive: Option<mio_channel::SyncSender<ReaderCommand>>,
   topic_cache: Arc<Mutex<TopicCache>>,
-  pub waker_flag: Arc<FlagWaker>,
 }
 
 thread_local! {
@@ -376,9 +383,9 @@ impl ReaderBench {
     own_prefix.copy_from_slice(e.dp.guid_prefix().as_ref());
 
     ReaderBench {
+      cons: ConsumerSide { flavor: cfg.flavor, dr, waker_flag: Arc::new(FlagWaker(Default::default())) },
       cfg,
       mr,
-      dr,
       reader_eid,
       own_prefix,
       acknack_rx,
@@ -386,7 +393,6 @@ impl ReaderBench {
       _pstatus_rx: pstatus_rx,
       _cmd_keepalive: None,
       topic_cache,
-      waker_flag: Arc::new(FlagWaker(Default::default())),
     }
   }
 
@@ -449,6 +455,63 @@ impl ReaderBench {
     let tc = self.topic_cache.lock().unwrap();
     tc.get_changes_in_range_best_effort(crate::Timestamp::ZERO, crate::Timestamp::now())
       .count()
+  }
+
+  pub fn op(&mut self, op: &ReadOp) -> Result<Vec<Obs>, String> {
+    self.cons.op(op)
+  }
+
+  /// Separate the application's half from the Reader's half (which is not Send).
+  pub fn split(self) -> (ProducerSide, ConsumerSide) {
+    let ReaderBench { cfg, mr, cons, reader_eid, own_prefix, acknack_rx, _spdp_rx, _pstatus_rx, _cmd_keepalive, topic_cache } = self;
+    (ProducerSide { cfg, mr, reader_eid, own_prefix, _acknack_rx: acknack_rx, _spdp_rx, _pstatus_rx, _cmd_keepalive, _topic_cache: topic_cache }, cons)
+  }
+}
+
+/// The Reader's half after `split`.
+pub struct ProducerSide {
+  pub cfg: RbCfg,
+  mr: MessageReceiver,
+  reader_eid: EntityId,
+  pub own_prefix: [u8; 12],
+  _acknack_rx: mio_channel::Receiver<(GuidPrefix, AckSubmessage)>,
+  _spdp_rx: mio_channel::Receiver<GuidPrefix>,
+  _pstatus_rx: StatusChannelReceiver<DomainParticipantStatusEvent>,
+  _cmd_keepalive: Option<mio_channel::SyncSender<ReaderCommand>>,
+  _topic_cache: Arc<Mutex<TopicCache>>,
+}
+
+impl ProducerSide {
+  pub fn reader_entity_id(&self) -> [u8; 4] {
+    self.reader_eid.to_slice()
+  }
+  pub fn inject(&mut self, datagram: &[u8]) -> Vec<Sent> {
+    net::capture_begin();
+    self.mr.handle_received_packet(&Bytes::copy_from_slice(datagram));
+    net::capture_end()
+  }
+}
+
+impl ConsumerSide {
+  /// register the DataReader as a mio-0.6 Evented, as the documented usage does
+  pub fn register_mio06(&self, poll: &mio_06::Poll) {
+    let (t, r, o) = (mio_06::Token(1), mio_06::Ready::readable(), mio_06::PollOpt::edge());
+    match &self.dr {
+      Dr::Keyed(d) => poll.register(d, t, r, o).unwrap(),
+      Dr::NoKey(d) => poll.register(d, t, r, o).unwrap(),
+      Dr::Simple(d) => poll.register(d, t, r, o).unwrap(),
+      Dr::SimpleNoKey(d) => poll.register(d, t, r, o).unwrap(),
+    }
+  }
+  /// register the DataReader as a mio-0.8 Source
+  pub fn register_mio08(&mut self, registry: &mio_08::Registry) {
+    let (t, i) = (mio_08::Token(1), mio_08::Interest::READABLE);
+    match &mut self.dr {
+      Dr::Keyed(d) => registry.register(d, t, i).unwrap(),
+      Dr::NoKey(d) => registry.register(d, t, i).unwrap(),
+      Dr::Simple(d) => registry.register(d, t, i).unwrap(),
+      Dr::SimpleNoKey(d) => registry.register(d, t, i).unwrap(),
+    }
   }
 
   pub fn op(&mut self, op: &ReadOp) -> Result<Vec<Obs>, String> {
@@ -619,10 +682,13 @@ impl ReaderBench {
           Poll::Ready(Some(Err(e))) => Err(format!("{e:?}")),
         }
       }
-      (_, op) => Err(format!("UNSUPPORTED op {op:?} for flavor {:?}", self.cfg.flavor)),
+      (_, op) => Err(format!("UNSUPPORTED op {op:?} for flavor {:?}", self.flavor)),
     }
   }
 
+}
+
+impl ReaderBench {
   /// Which ops this flavour supports (so generators do not emit others).
   pub fn supports(flavor: Flavor, op: &ReadOp) -> bool {
     match flavor {
